@@ -7,9 +7,10 @@
 
     tarfs.mode  tf= mode= name=          -> fm= stat= kind= name= clean=
     tarfs.read  root=0|1 hdrs=h;h;… end=eof|err [bytes=]   -> the Files `TarReader.Next` returns, `;`-joined, then the end
-    tarfs.tar   root=0|1 hdrs=h;h;… datas=hex;hex;… [bytes=] -> the catar `Tar` writes from that tar stream, or `err`
+                                          (`end:eof` / `end:err` as archive/tar ends the stream, `end:hardlink:<name>`)
+    tarfs.tar   root=0|1 hdrs=h;h;… datas=hex;hex;… end=eof|err [bytes=] -> the catar `Tar` writes from that tar stream, or `err`
     tarfs.write kind=dir|file|symlink|device name= uid= gid= mode= sec= nsec= size= target= major= minor= xattrs=
-                                          -> hdr=<header> refuse=0|1 wmt=sec,nsec
+                                          -> hdr=<header> refuse=0|1 wmt=sec,nsec back=<the header Reader.Next returns, format left out>|-
                 … hdr=<header> lib=<x>    -> x when `hdr` is the model's header for the node (x: what archive/tar's
                                              Writer makes of that header, a parameter), `stale-case` otherwise
 -/
@@ -76,42 +77,28 @@ def cmdMode (a : A) : String :=
 def parseHdrs (s : String) : Option (List TarHdr) :=
   if s.isEmpty then some [] else (s.splitOn ";").mapM parseHdr
 
-/-- the `File`s a `TarReader` returns for the headers archive/tar delivers -/
-def filesOf (root : Bool) (hs : List TarHdr) : List TFile :=
-  let rec go (root : Option TFile) (hs : List TarHdr) (fuel : Nat) (acc : List TFile) : List TFile :=
-    match fuel with
-    | 0 => acc.reverse
-    | fuel + 1 =>
-      match root, hs with
-      | some _, _ =>
-        match readerNext root none with
-        | (some f, r) => go r hs fuel (f :: acc)
-        | (none, _) => acc.reverse
-      | none, [] => acc.reverse
-      | none, h :: rest =>
-        match readerNext none (some h) with
-        | (some f, r) => go r rest fuel (f :: acc)
-        | (none, _) => acc.reverse
-  go (if root then some rootFile else none) hs (hs.length + 2) []
+def parseDatas (s : String) (n : Nat) : List Bytes :=
+  let ds := if s.isEmpty then [] else (s.splitOn ";").map fun d => (ofHex d).getD []
+  ds ++ List.replicate (n - ds.length) []
+
+def endStr (a : A) : NextResult → String
+  | .hardLink name => "end:hardlink:" ++ toHex name
+  | _ => "end:" ++ get a "end"     -- archive/tar's own end of the stream (`io.EOF` or an error) is passed on
 
 def cmdRead (a : A) : String :=
   match parseHdrs (get a "hdrs") with
   | none => "bad-case"
   | some hs =>
-    let fs := filesOf (get a "root" == "1") hs
-    -- after the last header archive/tar returns `io.EOF` or an error; `Next` passes it on (`readerNext _ none`)
-    String.intercalate ";" (fs.map fileStr ++ ["end:" ++ get a "end"])
+    let es : List Entry := hs.zip (parseDatas "" hs.length)
+    let (fs, e) := readerAll (get a "root" == "1") es
+    String.intercalate ";" (fs.map (fun fd => fileStr fd.1) ++ [endStr a e])
 
 def cmdTar (a : A) : String :=
   match parseHdrs (get a "hdrs") with
   | none => "bad-case"
   | some hs =>
-    let ds := if (get a "datas").isEmpty then [] else ((get a "datas").splitOn ";").map fun d => (ofHex d).getD []
-    let root := get a "root" == "1"
-    let fs := filesOf root hs
-    let datas := if root then [] :: ds else ds
-    let recs := (fs.zip (datas ++ List.replicate fs.length [])).map fun (f, d) => recOfFile f d
-    match tarStream recs with
+    let es : List Entry := hs.zip (parseDatas (get a "datas") hs.length)
+    match tarOfStream (get a "root" == "1") es (get a "end" == "eof") with
     | none => "err"
     | some b => toHex b
 
@@ -129,7 +116,9 @@ def cmdWrite (a : A) : String :=
     let w := wireMtime h.format n.mtime
     if (a.lookup "lib").isSome then
       if get a "hdr" == hdrStr h then get a "lib" else "stale-case"
-    else s!"hdr={hdrStr h} refuse={if wireRefuses h then 1 else 0} wmt={w.sec},{w.nsec}"
+    else
+      let back := match wire h with | some h' => hdrStr { h' with format := .unknown } | none => "-"
+      s!"hdr={hdrStr h} refuse={if wireRefuses h then 1 else 0} wmt={w.sec},{w.nsec} back={back}"
   | _, _, _, _, _ => "bad-case"
 
 def run (cmd : String) (a : A) : Option String :=
